@@ -79,6 +79,55 @@ fn frames_inside_connections(rep: &Report) -> u64 {
     n
 }
 
+
+/// (c) serverbound frames whose length prefix has two bytes (a 200-byte plugin message, a Client Information with a
+/// 140-byte locale), sent while routing is in progress and split after every one of their first four bytes, with the
+/// rest arriving at and just after the moment a routing stage answers or a timer fires: the frame must be decoded as
+/// one frame (same packets, everything consumed, same outcome as unsplit).
+fn split_prefixes_inside_connections(rep: &Report) -> u64 {
+    let mut n = 0u64;
+    let big = st(When::IdleAfter(1_000), Act::Frame { id: 2, body: W::new().string("minecraft:register").raw(&[0x61; 200]).done() });
+    for (label, lat) in [("discovery 5 s, filter 20 s", [5_000u64, 20_000, 0]), ("filter 5 s, strategy 20 s", [0, 5_000, 20_000]), ("discovery 5 s, strategy 12 s", [5_000, 0, 12_000])] {
+        let mut base = Case::default();
+        base.cfg.auth_secret = Some(b"c09-secret".to_vec());
+        base.script = Login { locale: "l".repeat(140), ..Default::default() }.steps();
+        base.script.push(big.clone());
+        base.adapters.disc_ms = lat[0];
+        base.adapters.filter_ms = lat[1];
+        base.adapters.strat_ms = lat[2];
+        let clean = vsim::sim::run(&base);
+        if !clean.has("Transfer") || clean.garbled.is_some() {
+            common::machinery(&format!("C09: the undisturbed exchange with a big serverbound frame did not end in a Transfer: {:?} {:?}", clean.kinds(), clean.result));
+        }
+        // the offsets at which the last two client frames start: read off the frames the client model recorded
+        let total = clean.emitted;
+        let big_len = codec::frame(2, &W::new().string("minecraft:register").raw(&[0x61; 200]).done()).len();
+        let ci_len = codec::sb_client_information(&"l".repeat(140)).len();
+        let starts = [total - big_len, total - big_len - ci_len];
+        let first_answer = lat.iter().copied().find(|l| *l > 0).unwrap_or(0);
+        for start in starts {
+            for k in 1..=4usize {
+                for until in [0u64, first_answer, first_answer + 1, 16_000, 16_001, first_answer + 2_000] {
+                    n += 1;
+                    let mut c = base.clone();
+                    c.transport.splits.push(Split { offset: start + k, pause: if until == 0 { Pause::Yield } else { Pause::Until(until) } });
+                    let obs = vsim::sim::run(&c);
+                    let same = obs.kinds().iter().filter(|k| **k != "KeepAlive").collect::<Vec<_>>() == clean.kinds().iter().filter(|k| **k != "KeepAlive").collect::<Vec<_>>();
+                    if !same || obs.garbled.is_some() || obs.partial_tail > 0 || obs.consumed != obs.emitted || obs.result != clean.result {
+                        rep.violation(Violation {
+                            key: "connection-frame:serverbound-frame-split-inside-its-length-prefix".into(),
+                            text: format!("{label}: the client's frame starting at byte {start} of its stream (two-byte length prefix) split after {k} byte(s), the rest arriving at {until} ms: the client is sent {:?}, result {:?}, {} of {} bytes consumed; unsplit: {:?}, {:?}, {} consumed", obs.kinds(), obs.result, obs.consumed, obs.emitted, clean.kinds(), clean.result, clean.consumed),
+                            replay: json!({"connection": "split-prefix", "latencies": lat, "start": start, "after": k, "until": until}),
+                            weight: 22,
+                        });
+                    }
+                }
+            }
+        }
+    }
+    n
+}
+
 fn ordinals_inside_connections(rep: &Report) -> u64 {
     let mut n = 0u64;
     // (label, frame) - complete, well-framed packets whose only fault is one ordinal
@@ -142,11 +191,24 @@ pub fn run(cli: Cli) -> ! {
     }
     let a = frames_inside_connections(&rep);
     let b = ordinals_inside_connections(&rep);
+    let c = split_prefixes_inside_connections(&rep);
+    rep.set("serverbound_frames_split_inside_their_length_prefix", json!(c));
     rep.require("connection-level framing cases", a, 100);
     rep.require("connection-level ordinal cases", b, 10);
     rep.set("frames_inside_connections", json!(a));
     rep.set("ordinals_inside_connections", json!(b));
     rep.assume("connection-level part: the real Connection over the virtual transport; frames are decoded by the harness's independent codec");
+    // clientbound frames of every length around the places where the length prefix grows (127/128, 16383/16384
+    // bytes), under frame limits from tiny to the protocol maximum: each must arrive as one well-formed frame
+    {
+        let sweep = vsim::sim::status_size_sweep(cli.tier.thorough());
+        for (label, want, obs) in &sweep {
+            if let Some(f) = vsim::sim::status_fault(want, obs) {
+                rep.violation(Violation { key: "connection-frame:status-answer-of-graded-length".into(), text: format!("{label}: {f}"), replay: json!({"connection": "status-size", "label": label}), weight: 25 });
+            }
+        }
+        rep.set("clientbound_frames_of_graded_length", json!(sweep.len()));
+    }
     // the assembled router: stage-wise schedules of two clients and of the shutdown signal against the real Listener,
     // and the application started by passage::start from a configuration read by Config::read()
     crate::world::host(&rep, "C09", cli.tier.thorough());
